@@ -1518,7 +1518,9 @@ fn bigk_full_history(hint: usize, target: usize, order: u32, deadpat: u32, pos: 
             1 => i % 3 == 0,
             2 => (2..=4).contains(&(i % 7)),
             3 => i % 10 != 0,
-            _ => i % 16 == 5 || i % 16 == 6,
+            4 => i % 16 == 5 || i % 16 == 6,
+            // very sparse: a handful of expired entries in a very long collection
+            _ => i % 30011 == 17 || i % 65521 == 65520,
         };
         // the list has no arena: use the same number of entries as the tree variant would hold
         let cap_n = 2 * target as u32 + 64;
@@ -1537,6 +1539,10 @@ fn bigk_full_history(hint: usize, target: usize, order: u32, deadpat: u32, pos: 
             }
             model.insert(k.id, (k.exp, v));
             count += 1;
+            if count % 2048 == 0 {
+                rt::hist_reset();
+                rt::hist_push(code(7, case_no, 1, 0, 0));
+            }
             if count as usize + 2 >= target {
                 let sn = reference_tree.verif_snapshot();
                 if sn.unused.is_empty() && sn.slots.len() >= target {
@@ -1585,6 +1591,10 @@ fn bigk_full_history(hint: usize, target: usize, order: u32, deadpat: u32, pos: 
         structure(&tree, "after the insert into the full arena")?;
         let maxk = *model.keys().next_back().unwrap();
         for id in 0..=maxk + 1 {
+            if id % 4096 == 0 {
+                rt::hist_reset();
+                rt::hist_push(code(7, case_no, 1, 0, 0));
+            }
             let want = model.get(&id).filter(|(e, _)| *e > t).map(|(_, v)| *v);
             let probe = BKey { id, exp: 0 };
             let got = match (tree.as_mut(), lst.as_mut()) {
@@ -1681,6 +1691,22 @@ fn sweep_bigk(a: &Args) -> ! {
                             for pos in 0..5 {
                                 fc.push((hint, target, order, deadpat, pos));
                             }
+                        }
+                    }
+                }
+            }
+        }
+        if a.get("only").is_none() {
+            // very long collections (more than 2^16 / 2^17 entries) with only a handful of expired entries
+            let hmax = a.num("huge-max", 0) as usize;
+            for target in [65536usize, 131072, 262144] {
+                if target > hmax {
+                    continue;
+                }
+                for order in 0..(if a.num("all-orders", 0) == 1 { 3 } else { 1 }) {
+                    for deadpat in [4u32, 5] {
+                        for pos in [1u32, 2] {
+                            fc.push((8, target, order, deadpat, pos));
                         }
                     }
                 }
